@@ -111,6 +111,13 @@ func (in *Interp) lookupNative(fn *ssa.Function) nativeFn {
 			return natReached
 		case "IsNil":
 			return natIsNil
+		case "Concurrently":
+			return func(in *Interp, fn *ssa.Function, args []Value) Value {
+				in.callValue(args[0], nil)
+				return nil
+			}
+		case "Observe":
+			return natNop
 		}
 	}
 	return nil
